@@ -820,3 +820,7 @@ def _wif_default_zero(tree):
                     a.defaults[i] = ast.Constant(0)
                     return True
     return False
+
+
+from . import c03 as _c03
+PROP.obligation('C10.public-master-arguments')(_c03.public_master_account)
